@@ -9,6 +9,7 @@ import (
 	"runtime"
 	"sort"
 	"strconv"
+	"strings"
 	"sync"
 	"sync/atomic"
 	"time"
@@ -142,6 +143,32 @@ func (r *Report) Note(format string, a ...any) {
 	r.mu.Lock()
 	r.notes = append(r.notes, fmt.Sprintf(format, a...))
 	r.mu.Unlock()
+}
+
+// PackageState reports that package-level variables of the library changed. Only C16 states "the package keeps no
+// mutable global state"; under every other property the observation is recorded as a note (a lazily built table is
+// not a wrong result, a modified operand or a write to caller memory - what goes wrong BECAUSE of such state shows in
+// the property's own oracle), so that a tree on which the other property holds raises no alarm there.
+func (r *Report) PackageState(key, detail string, replay any) {
+	if r.ID == "C16" {
+		r.Violation(key, detail, replay)
+		return
+	}
+
+	r.mu.Lock()
+	defer r.mu.Unlock()
+
+	for _, n := range r.notes {
+		if strings.HasPrefix(n, "package-level state changed (") {
+			return
+		}
+	}
+
+	if len(detail) > 400 {
+		detail = detail[:400] + "..."
+	}
+
+	r.notes = append(r.notes, "package-level state changed (not a violation of this property; property C16 forbids it and its check reports it): "+detail)
 }
 
 // Assume records a trust assumption.
